@@ -21,7 +21,12 @@ def _W():
     return _world.WORLD
 
 
+TICK = None  # optional callback(name) invoked by every leaf (C18 samples at run starts without recording anything)
+
+
 def _invoke(name: str, kwargs: dict, data=None) -> None:
+    if TICK is not None:
+        TICK(name)
     w = _world.WORLD
     if w is not None:
         w.on_invoke(name, kwargs, data)
